@@ -6,6 +6,7 @@
 (* judged against this world - bounded at every step, equal to the physical truth at rest.         *)
 EXTENDS Integers, Sequences, FiniteSets, TLC
 CONSTANTS Balls, Devs, Cap, Target, Shootable,   \* Shootable: devices a playfield ball can be shot into
+          Escapable,   \* devices a resting ball can leave by itself (bounce out, get lost)
              \* Cap[d] capacity, Target[d] where d ejects to ("pf" = playfield)
           MaxOps
 VARIABLES loc,      \* [Balls -> <<"at", p, p, "ok">> | <<"transit", src, dst, kind>>]  (p a device or "pf"; kind "ok" | "back")
@@ -41,9 +42,11 @@ Shot(b, d) == /\ Budget /\ loc[b] = At("pf") /\ d \in Shootable
               /\ loc' = [loc EXCEPT ![b] = <<"transit", "pf", d, "ok">>] /\ act' = [op |-> "shot", d |-> d]
               /\ UNCHANGED <<fired, want>>
 \* a ball leaves a device by itself (bounces out, is lost from a lock) and ends up loose on the playfield
-Escape(b, d) == /\ Budget /\ d \in Shootable /\ loc[b] = At(d) /\ d \notin fired
+Escape(b, d) == /\ Budget /\ d \in Escapable /\ loc[b] = At(d) /\ d \notin fired
                 /\ loc' = [loc EXCEPT ![b] = <<"transit", d, "pf", "ok">>] /\ act' = [op |-> "escape", d |-> d]
-                /\ UNCHANGED <<fired, want>>
+                \* a ball lost from the trough is one more ball that belongs on the playfield now; a ball lost from a
+                \* device that was going to eject it to the playfield anyway changes nothing
+                /\ want' = (IF d = Home THEN want + 1 ELSE want) /\ UNCHANGED fired
 \* a ball is requested for the playfield (ball start, ball save, multiball add, manual request)
 Request == /\ Budget /\ want' = want + 1 /\ act' = [op |-> "request"] /\ UNCHANGED <<loc, fired>>
 Next == \/ \E d \in Devs : Fire(d) \/ NoLeave(d) \/ \E b \in Balls, k \in {"ok", "back"} : Leave(d, b, k)
